@@ -687,7 +687,15 @@ def _def_loops(ctx, rel, prefix_re, seq, suffix_of, what, expected):
                 hits.append((it, body))
     key = f"{rel.split('/')[-1]}:{what}"
     if len(hits) != 1:
-        # several loops (one per kind of species, say): which member gets which position is not understood -- never a verdict
+        # several loops (one per kind of species, say).  Understood and wrong: a defining loop that walks a SELECTION of the sequence
+        # (`network.species | selectattr(..)`, a slice, a loop filter) -- whatever offset it adds, the position it writes is not the
+        # position the member has in the unfiltered sequence, which is what the positional tables of the generator use.  Anything
+        # else about several loops is not understood -- no verdict
+        sel = [it for it, _ in hits if _seq_verdict(it[2], it[7], seq) == "wrong"]
+        if sel:
+            ctx.bad("R4", key, (rel, sel[0][5]), f"{expected} is paired with loop.index0 over the unfiltered {J.show(seq)}",
+                    expected=f"one loop over {J.show(seq)}", found=f"{len(hits)} loops, one over the selection {J.show(sel[0][2])[:100]}")
+            return
         (ctx.unrec if hits else ctx.missing)("R4", key, (rel, hits[0][0][5] if hits else 0), f"expected one loop defining {expected}, found {len(hits)}")
         return
     it, body = hits[0]
